@@ -1,6 +1,7 @@
 """C02 — muxer output is a structurally valid, self-consistent ISO-BMFF file.
 
-proof:           Props/C02.v (table-level validity invariants of the writer model; soundness of the boolean validator)
+proof:           Props/C02.v (table-level validity invariants of the writer model; soundness of the boolean validator);
+                 Props/C02Bytes.v (C02_mux_bytes_iso_valid: the independent validator iso_check_file accepts the muxer model's COMPLETE output bytes with the history's expectation)
 correspondence:  extracted Writer model vs the real Mp4Writer (tables, headers, mdat extent, bytes before moov)
 oracle:          Iso/IsoFile.v `iso_check_file` (extracted; shares no code with the library) run on the REAL muxer's bytes
 """
@@ -10,7 +11,8 @@ import muxcheck
 import muxgen
 
 LEVEL = "proof"
-CONE = ["Props/C02.v", "Proofs/MuxProofs.v", "Proofs/MuxInv.v", "Model/Writer.v", "Iso/IsoFile.v"]
+CONE = ["Props/C02.v", "Props/C02Bytes.v", "Proofs/MuxProofs.v", "Proofs/MuxInv.v", "Proofs/IsoParse1.v", "Proofs/IsoParse2.v", "Proofs/IsoParse3.v", "Proofs/IsoParse4.v",
+        "Proofs/IsoMuxValid.v", "Proofs/MuxOpen.v", "Model/Writer.v", "Model/WriterMoov.v", "Iso/IsoFile.v"]
 
 
 def check(rep):
@@ -28,7 +30,7 @@ def check(rep):
         return
     hs = muxgen.exhaustive_small()
     hs += [muxgen.random_history(rng, bad=0.02) for _ in range(300 if rep.tier == "quick" else 6000)]
-    muxcheck.run_property(rep, "C02", CONE, hs, [muxcheck.oracle_c02],
+    muxcheck.run_property(rep, "C02", CONE, hs, [muxcheck.oracle_c02], modules=["C02", "C02Bytes"], rule=
                           "same history space as C01 (shape-exhaustive small + seeded random, debug and release); the real output is judged by the "
                           "independent parser/validator iso_check_file: top-level tiling, container sizes, per-track table totals, stss order, chunk "
                           "extents inside mdat and pairwise disjoint, header durations within one tick, version/width consistency. "
